@@ -51,6 +51,7 @@ type c39Forest struct {
 	side    [][]*types.Block // side[f] = side chain forking after canon[f-1] (f = number of shared blocks)
 	known   map[common.Hash]string
 	parent  map[common.Hash]common.Hash
+	number  map[common.Hash]uint64
 	// expected state of the never-crashed node after canon[:n]
 	expNonce   []uint64
 	expRcpt    []*big.Int
@@ -85,6 +86,7 @@ func c39GetForest() *c39Forest {
 			},
 			known:      map[common.Hash]string{},
 			parent:     map[common.Hash]common.Hash{},
+			number:     map[common.Hash]uint64{},
 			sender:     sender,
 			recipient:  common.HexToAddress("0x00000000000000000000000000000000000c39aa"),
 			canonMiner: common.Address{0x02},
@@ -109,6 +111,7 @@ func c39GetForest() *c39Forest {
 		for i, b := range f.canon {
 			f.known[b.Hash()] = fmt.Sprintf("C%d", i+1)
 			f.parent[b.Hash()] = b.ParentHash()
+			f.number[b.Hash()] = b.NumberU64()
 		}
 		for fk := 0; fk < c39MaxLen; fk++ {
 			parent := f.genesis
@@ -119,6 +122,7 @@ func c39GetForest() *c39Forest {
 			for i, b := range sc {
 				f.known[b.Hash()] = fmt.Sprintf("S%d.%d", fk, fk+i+1)
 				f.parent[b.Hash()] = b.ParentHash()
+				f.number[b.Hash()] = b.NumberU64()
 			}
 			f.side = append(f.side, sc)
 		}
@@ -445,8 +449,11 @@ func (rc *c39Recovered) invariants(stage string) error {
 			return fail("finalized block #%d is not canonical", fin.Number)
 		}
 	}
-	// no dangling blocks: a stored header has a stored parent
+	// no dangling data: a stored body or receipt list has its header, a stored header has a stored parent
 	for h, ph := range f.parent {
+		if n := f.number[h]; !rawdb.HasHeader(db, h, n) && (rawdb.HasBody(db, h, n) || rawdb.HasReceipts(db, h, n)) {
+			return fail("body/receipts of block %s are stored without its header", f.nameOf(h))
+		}
 		num, ok := rawdb.ReadHeaderNumber(db, h)
 		if !ok || rawdb.ReadHeader(db, h, num) == nil {
 			continue
